@@ -19,6 +19,9 @@ REPL = {
     'collinear3->OCF': ('collinear3', ['O', 'C', 'F'], [(0, 0, 0), (1.2, 0, 0), (2.9, 0, 0)]),
     'collinear3->OCSN': ('collinear3', ['O', 'C', 'S', 'N'], [(0, 0, 0), (1.2, 0, 0), (2.7, 0, 0), (1.2, 1.0, 0.5)]),
     'pseudo6->plusS': ('pseudo6', ['C', 'H', 'H', 'F', 'N', 'O', 'S'], [(0, 0, 0), (1.1, 0, 0), (-1.1, 0, 0), (0, 1.3, 0), (0, -0.5, 1.2), (0, -0.5, -1.2), (0.8, 0.9, 1.5)]),
+    'pseudoaxis5->plusS': ('pseudoaxis5', ['C', 'H', 'H', 'N', 'O', 'S'], [(0, 0, 0), (1.5, 0, 0), (-1.5, 0, 0), (0, 1.2, 0.3), (0, -1.2, 0.3), (0.9, 0.7, 1.6)]),
+    'chiralflat4->F': ('chiralflat4', ['C', 'N', 'O', 'F'], [(0.0, 1.5, 0.0), (2.0, 0.0, 0.0), (-2.0, 0.0, 0.0), (0.3, 0.4, 0.6)]),
+    'chiralflat4F->H': ('chiralflat4F', ['C', 'N', 'O', 'H'], [(0.0, 1.5, 0.0), (2.0, 0.0, 0.0), (-2.0, 0.0, 0.0), (0.3, 0.4, 0.6)]),
     'single->F': ('single', ['F'], [(0, 0, 0)]),
     'single->FCl-long': ('single', ['F', 'Cl'], [(0, 0, 0), (14.5, 0.4, -8.2)]),
     'singleF->H': ('singleF', ['H'], [(0, 0, 0)]),
@@ -121,10 +124,13 @@ def run_e2e(ctx, p):
         replace.atom_type_labels = list(replace.atom_type_labels) + ['Cl']
         replace.atom_type_masses = list(replace.atom_type_masses) + [35.453]
     if p.get('pattern_terms') and len(rel) >= 2:
-        replace.bonds = np.array([(0, 1)])
-        replace.bond_types = np.array([0])
-        replace.bond_type_coeffs = np.array(['bp 1.0 2.0'])
-        replace.extra_bond_fields = np.full((1, 0), '.', dtype=object)
+        # a bond between the first two pattern atoms and, when there is a third atom, one from the first to the third (for most replacement
+        # patterns here that is a bond between a retained and an inserted atom)
+        pb = [(0, 1)] + ([(0, 2)] if len(rel) >= 3 else [])
+        replace.bonds = np.array(pb)
+        replace.bond_types = np.array(list(range(len(pb))))
+        replace.bond_type_coeffs = np.array(['bp 1.0 2.0', 'bq 3.0 4.0'][:len(pb)])
+        replace.extra_bond_fields = np.full((len(pb), 0), '.', dtype=object)
     kw = {}
     for h in ('axisp1_idx', 'axisp2_idx', 'opoint_idx'):
         if p.get(h) is not None:
@@ -244,10 +250,11 @@ def check_placement(ctx, p, R, bound=None):
         fin = {i: r for r, i in enumerate(surv)}
         want = set()
         for b, gi in enumerate(block_occ):
-            ends = []
-            for k in (0, 1):
-                ends.append(fin[occ[gi][sh[k]]] if k in sh else blocks[b][ins_idx.index(k)])
-            want.add(tuple(sorted(ends)))
+            for pbond in [(0, 1)] + ([(0, 2)] if nR >= 3 else []):
+                ends = []
+                for k in pbond:
+                    ends.append(fin[occ[gi][sh[k]]] if k in sh else blocks[b][ins_idx.index(k)])
+                want.add(tuple(sorted(ends)))
         got = set(tuple(sorted(int(x) for x in t)) for t in res.bonds)
         ctx.require("the replacement pattern's bond joins the retained/inserted atoms of the same match", got == want, detail=dict(got=sorted(got), want=sorted(want)))
     return dict(n_surv=n_surv, sh=sh)
